@@ -165,7 +165,11 @@ Record slot := mkSlot { sl_it : item; sl_stale : bool; sl_before : obs; sl_after
          refused with SequencesViolation (1) or failed with a storage error (2).  The only guard of
          GetEventReapplier is the isStored mark; for which of these outcomes PutPlog sets it is extracted from
          the source (Gen/Params.c05_refused_plog_marks_stored, c05_failed_plog_marks_stored).
-   3 (PutPlog): the harness makes the storage write fail before it has any effect. *)
+   3 (PutPlog): the harness makes the storage write fail before it has any effect.
+   4: the step is issued (by another partition of the application) while a re-applier's WLog write is in flight;
+   5: the step is issued after two re-appliers' WLog writes overlapped.
+      If the re-applier writes through the regular PutWlog under a raised SHARED trust level
+      (Gen/Params.c05_reapply_wlog_raises_level), such steps run at level 2; with the direct Put they do not. *)
 Record step := mkStep { s_kind : skind; s_mode : N; s_corrupted : bool; s_slots : list slot; s_res : res; s_calls : list call }.
 (* backend: 0 mem, 1 bbolt, 2 istoragecache over mem *)
 Record gtrace := mkTrace { t_backend : N; t_trust : N; t_steps : list step }.
@@ -196,8 +200,12 @@ Definition reapplier_accepts (mode : N) : bool :=
   else if mode =? 2 then c05_failed_plog_marks_stored else false.
 Definition is_reapply (k : skind) : bool := match k with KReapplyRecs | KReapplyWlog => true | _ => false end.
 
+Definition window_mode (m : N) : bool := (m =? 4) || (m =? 5).
+Definition eff_trust (trust m : N) : N :=
+  if window_mode m && c05_reapply_wlog_raises_level then 2 else trust.
+
 Definition run_step (trust : N) (now : Z) (st : store) (s : step) : option (store * res * list call) :=
-  if s_mode s =? 0 then run_step0 trust now st s
+  if (s_mode s =? 0) || window_mode (s_mode s) then run_step0 (eff_trust trust (s_mode s)) now st s
   else if s_mode s =? 3 then match s_kind s with KPlog => Some (st, ROther, []) | _ => None end
   else if is_reapply (s_kind s) then
     (if reapplier_accepts (s_mode s) then run_step0 trust now st s else Some (st, RPanic, []))
@@ -305,7 +313,7 @@ Definition guarded_unstored (trust : N) (k : skind) (is_new : bool) : bool :=
   end.
 
 Definition satisfies_step (trust : N) (s : step) : bool :=
-  if s_mode s =? 0 then satisfies_step0 trust s
+  if (s_mode s =? 0) || window_mode (s_mode s) then satisfies_step0 trust s
   else if s_mode s =? 3 then true
   else forallb (fun sl => negb (guarded_unstored trust (s_kind s) (it_new (sl_it sl)) && occupied (sl_before sl))
                           || obs_ok (sl_stale sl) (sl_after sl) (sl_before sl)) (s_slots s).
@@ -316,7 +324,8 @@ Definition gsatisfies (t : gtrace) : bool := forallb (satisfies_step (t_trust t)
    c05_update_inherits_isnew holds; see Properties/C05.v) *)
 Definition clean_step (s : step) : bool :=
   forallb (fun sl => negb (stale_new (sl_it sl))) (s_slots s)
-  && ((s_mode s =? 0) || (s_mode s =? 3) || negb (reapplier_accepts (s_mode s))).
+  && ((s_mode s =? 0) || (s_mode s =? 3)
+      || (if window_mode (s_mode s) then negb c05_reapply_wlog_raises_level else negb (reapplier_accepts (s_mode s)))).
 Definition gclean (t : gtrace) : bool := forallb clean_step (t_steps t).
 (* no step re-applies an event whose PutPlog failed with a storage error (finding P-D) *)
 Definition no_failed_reapply (t : gtrace) : bool := forallb (fun s => negb (s_mode s =? 2)) (t_steps t).
